@@ -94,8 +94,7 @@ def check_case(case, ctx=None):
     ad = Diff.no_change(jargs)
     tr_ua, w_ua, _, bwd_a = Update(gfi.build_chm(um, style=case["style"])).edit(k1, tr_b, ad)
     tr_ub, w_ub, _, bwd_b = Update(gfi.build_chm(up, style=case["style"])).edit(k1, tr_b, ad)
-    masg2 = dict(run_b.assignment())
-    masg2.update(up)
+    masg2 = gfi_hist.model_after_update(node, run_b.assignment(), up, offered=uasg)
     run_ub, _ = gfi.check_trace_against_model(tr_ub, node, nargs, masg2, "plain-update:", case, Violation, allow_fresh=True)
     _compare("update", run_ub, tr_ua, w_ua, tr_ub, w_ub, case)
     paths = [p for p, _ in gfi.all_paths(node)]
